@@ -3,9 +3,11 @@ import p_bnf
 import p_ll
 import p_xform
 import p_misc
+import p_scan
 
 REGISTRY = {}
 REGISTRY.update(p_bnf.REGISTRY)
 REGISTRY.update(p_ll.REGISTRY)
 REGISTRY.update(p_xform.REGISTRY)
 REGISTRY.update(p_misc.REGISTRY)
+REGISTRY.update(p_scan.REGISTRY)
